@@ -98,6 +98,9 @@ HARNESSES = [
       fns=["decode_huffman_code", "HuffmanTable::fast_lookup", "HuffmanTable::tree_lookup", "read_byte", "read_u16_le", "end_of_input"],
       strength="B(one well-formed table instance with 1..12-bit codes; <= 40 buffered bits + <= 3 input bytes; complete over every bit stream, split and flag word)",
       note="the table instance is what init_tree builds for lengths 1..11,12,12 (derived by hand from init_tree's algorithm; init_tree itself is behind an assumed contract)"),
+    H("k_epilogue_starved_call_keeps_its_byte", "K-prologue", ["C04", "C06", "C07", "C08", "C13"], cost=40, timeout=900,
+      fns=["decompress_with_limit (prologue, one starved arm evaluation, epilogue: no rewind on NeedsMoreInput, registers saved)"],
+      strength="B(1 input byte, out<=16; state ReadExtraBitsDistance needing 13 bits with 3 buffered; complete in every other register, table entry, flag and position)"),
     H("k_init_tree_clears_tables", "K-inittree", ["C03", "C04", "C18"], cost=30, timeout=900, fns=["init_tree (clearing prologue, count/verdict section, table order)"],
       strength="B(all-unused code sets of sizes 4/2/19; complete in the starting table)",
       note="<[i16]>::fill replaced by its std contract model (writes index 0; call count and slice lengths recorded)"),
